@@ -262,7 +262,7 @@ func (e *c17Env) run(b *verifx.C17Beh, n int64, big bool) ([]*verifx.C17Plan, []
 			if !begin(i) {
 				return plans, res, false
 			}
-		case "wh", "w":
+		case "wh", "w", "fl":
 			select {
 			case sess[i].step <- struct{}{}:
 			case <-abort:
